@@ -14,6 +14,12 @@ same output files and printed figures as the serial run, file by file. The sweep
 pool's start method substituted by `fork`; with the library's own `spawn` the empty corpus is
 run for every pipeline and a rotating sample of the others (quick) / all of them plus 7
 utterances with {0, 1, 3} workers (thorough).
+
+Option grid ("sessions", both tiers, background subprocesses, `c17_opts.py`): every command with every
+optional flag omitted and with one option changed at a time; the invocations run one after the other
+in one python process must each leave what the same invocation leaves as the first call of a fresh
+process, with one worker what the serial run leaves, and an explicitly passed documented default what
+the omitted flag leaves.
 """
 import contextlib
 import io
@@ -53,6 +59,62 @@ ER_VOCABS = [
 ]
 ER_VOCAB_WEIGHTS = [25, 30, 30, 15]
 ER_UNMAPPED = 77          # in no vocabulary above
+
+
+# The DOCUMENTED defaults of the optional flags the in-process cases pass (copied from the commands' help texts /
+# pydrobert.torch.config, not read from the parser of the tree under test). A case may ask for any of them to be
+# OMITTED from a command's argv when the value it would pass is this default (`case["omit"]`: command -> flags):
+# the verdicts do not change, so every round trip is also run with a flag omitted on one side and explicit on
+# the other.
+DOC_DEFAULTS = {"--file-prefix": "", "--file-suffix": ".pt", "--frame-shift-ms": "10", "--textgrid-suffix": ".TextGrid",
+                "--precision": "3", "--batch-size": "100", "--feat-subdir": "feat", "--ali-subdir": "ali",
+                "--ref-subdir": "ref"}
+_NAMES = ["--file-prefix", "--file-suffix"]
+_SUBS = ["--feat-subdir", "--ali-subdir", "--ref-subdir"]
+# kind of case -> the commands it calls -> the flags of DOC_DEFAULTS the case passes to that command
+KIND_FNS = {
+    "alidir": {"torch_ali_data_dir_to_torch_token_data_dir": _NAMES, "torch_token_data_dir_to_torch_ali_data_dir": _NAMES},
+    "refdir": {"torch_token_data_dir_to_torch_ali_data_dir": _NAMES, "torch_ali_data_dir_to_torch_token_data_dir": _NAMES},
+    "trn": {"trn_to_torch_token_data_dir": _NAMES, "torch_token_data_dir_to_trn": _NAMES},
+    "ctm": {"ctm_to_torch_token_data_dir": _NAMES + ["--frame-shift-ms"],
+            "torch_token_data_dir_to_ctm": _NAMES + ["--frame-shift-ms"]},
+    "textgrid": {"textgrids_to_torch_token_data_dir": _NAMES + ["--frame-shift-ms", "--textgrid-suffix"],
+                 "torch_token_data_dir_to_textgrids": _NAMES + ["--frame-shift-ms", "--textgrid-suffix"]},
+    "er": {"compute_torch_token_data_dir_error_rates": _NAMES + ["--batch-size"]},
+    "subset": {"subset_torch_spect_data_dir": _NAMES + _SUBS},
+    "datadir": {"chunk_torch_spect_data_dir": _NAMES + _SUBS, "get_torch_spect_data_dir_info": _NAMES + _SUBS},
+    "moments": {"print_torch_ali_data_dir_length_moments": _NAMES + ["--precision"],
+                "print_torch_ref_data_dir_length_moments": _NAMES + ["--precision"]},
+    "mvn": {"compute_mvn_stats_for_torch_feat_data_dir": _NAMES},
+}
+
+
+def same_value(a, b):
+    if a == b:
+        return True
+    try:
+        return float(a) == float(b)
+    except ValueError:
+        return False
+
+
+def strip_defaults(argv, flags):
+    """argv without `flag value` / `flag=value` for the flags listed whose value IS the documented default.
+    -> (argv, flags actually left out)."""
+    argv, out, gone, i = [str(a) for a in argv], [], [], 0
+    while i < len(argv):
+        a = argv[i]
+        f, eq, v = a.partition("=")
+        if a in flags and i + 1 < len(argv) and same_value(argv[i + 1], DOC_DEFAULTS[a]):
+            gone.append(a)
+            i += 2
+        elif eq and f in flags and same_value(v, DOC_DEFAULTS[f]):
+            gone.append(f)
+            i += 1
+        else:
+            out.append(a)
+            i += 1
+    return out, gone
 
 
 def rand_name(rng, lo=1, hi=5):
@@ -147,7 +209,15 @@ class C17(PropertyCheck):
             "9 pipelines (ali<->token, trn, ctm, textgrid, subset incl. --utt-list(-file) and the three copy modes, "
             "ali/ref moments, mvn, chunk; subset and chunk on inconsistent data directories) x corpora "
             "of 0/1/3 utterances x workers {0,1,2} x chunk {1,2}, fork sweep + spawn sample; thorough adds "
-            "7 utterances x {0,1,3} x chunk {1,2} and every small spawn run. non-trivial: >= 2 utterances "
+            "7 utterances x {0,1,3} x chunk {1,2} and every small spawn run. Optional flags: ~75% of the cases "
+            "leave out, per command and flag at random, --file-prefix / --file-suffix / --frame-shift-ms / "
+            "--textgrid-suffix / --precision / --batch-size / --feat/ali/ref-subdir whenever the value to pass is "
+            "the DOCUMENTED default (omitted on one side of a round trip, explicit on the other). Sessions "
+            "(extra_checks, c17_opts.py): 15 commands x (base with every optional flag omitted + one option "
+            "changed at a time, ~225 flips: documented default passed explicitly / another value): the "
+            "invocations base, flip1, base, flip2, ... in ONE process (--num-workers 0) each equal to the same "
+            "invocation as first call of a fresh process; one worker (fork; thorough: 6 under spawn) = serial for "
+            "every invocation; explicit documented default = omitted. non-trivial: >= 2 utterances "
             "and a non-default option; distinct by case")
     assumptions = [
         "multiprocessing Pool.imap_unordered / DataLoader deliver every result exactly once (trusted); the "
@@ -175,12 +245,19 @@ class C17(PropertyCheck):
             # the worker-count runs go on in background subprocesses while the cases are evaluated;
             # extra_checks gathers them
             self._worker_runs = self._start_worker_runs(rng, tier)
+            self._session_runs = self._start_session_runs(rng, tier)
         gens = [self.gen_alidir, self.gen_refdir, self.gen_trn, self.gen_ctm, self.gen_textgrid,
                 self.gen_er, self.gen_subset, self.gen_moments, self.gen_mvn, self.gen_datadir]
         for i in range(n):
             for g in gens:
                 c = g(rng, tier)
                 if c is not None:
+                    # which optional flags each command of the case leaves out when their value is the documented
+                    # default (about a quarter of the cases pass everything explicitly, as all of them used to)
+                    if rng.random() < 0.75:
+                        omit = {fn: sorted(f for f in flags if rng.random() < 0.5)
+                                for fn, flags in KIND_FNS[c["kind"]].items()}
+                        c["omit"] = {fn: fl for fn, fl in omit.items() if fl}
                     yield c
 
     def gen_alidir(self, rng, tier):
@@ -548,6 +625,19 @@ class C17(PropertyCheck):
     def run_impl(self, case):
         return getattr(self, "impl_" + case["kind"])(case)
 
+    _omitted = {}
+
+    def _call(self, case, name, argv):
+        """Call a command in-process; flags the case wants omitted are left out when the value they would
+        carry is the documented default."""
+        flags = (case.get("omit") or {}).get(name)
+        if flags:
+            argv, gone = strip_defaults(argv, [f for f in flags if f in DOC_DEFAULTS])
+            if gone:
+                self._omitted.setdefault(json.dumps(case, sort_keys=True), set()).update(
+                    f"{name}:{f}" for f in gone)
+        return K.call(name, argv)
+
     def impl_alidir(self, case):
         with K.tmpdir() as d:
             ali = os.path.join(d, "ali")
@@ -556,10 +646,10 @@ class C17(PropertyCheck):
                 K.save(K.long_tensor(a), os.path.join(ali, name))
             ref, ali2 = os.path.join(d, "ref"), os.path.join(d, "ali2")
             na = K.name_args(case["prefix"], case["suffix"])
-            r1 = K.call("torch_ali_data_dir_to_torch_token_data_dir", [ali, ref] + na + ["--num-workers", "0"])
+            r1 = self._call(case, "torch_ali_data_dir_to_torch_token_data_dir", [ali, ref] + na + ["--num-workers", "0"])
             out = {"ret": r1, "ref": K.list_dir_tensors(ref)}
             try:
-                r2 = K.call("torch_token_data_dir_to_torch_ali_data_dir", [ref, ali2] + na + ["--num-workers", "0"])
+                r2 = self._call(case, "torch_token_data_dir_to_torch_ali_data_dir", [ref, ali2] + na + ["--num-workers", "0"])
                 out["back"] = K.list_dir_tensors(ali2)
                 out["ret2"] = r2
             except (ValueError, RuntimeError) as e:
@@ -589,11 +679,11 @@ class C17(PropertyCheck):
             na = K.name_args(case["prefix"], case["suffix"])
             fa = ["--feat-dir", feat] if case["use_feat"] else []
             try:
-                K.call("torch_token_data_dir_to_torch_ali_data_dir", [ref, ali] + na + fa + ["--num-workers", "0"])
+                self._call(case, "torch_token_data_dir_to_torch_ali_data_dir", [ref, ali] + na + fa + ["--num-workers", "0"])
             except (ValueError, RuntimeError) as e:
                 return {"error1": type(e).__name__}
             out = {"ali": K.list_dir_tensors(ali)}
-            K.call("torch_ali_data_dir_to_torch_token_data_dir", [ali, ref2] + na + ["--num-workers", "0"])
+            self._call(case, "torch_ali_data_dir_to_torch_token_data_dir", [ali, ref2] + na + ["--num-workers", "0"])
             out["ref2"] = K.list_dir_tensors(ref2)
             return out
 
@@ -622,7 +712,7 @@ class C17(PropertyCheck):
                 argv.append("--skip-frame-times")
             elif case["sizing"] == "feat":
                 argv.append("--feat-sizing")
-            r1 = K.call("trn_to_torch_token_data_dir", argv)
+            r1 = self._call(case, "trn_to_torch_token_data_dir", argv)
             listing = {}
             shapes_ok = True
             for n in sorted(os.listdir(tok)):
@@ -637,7 +727,7 @@ class C17(PropertyCheck):
             argv2 = [tok, i2t_path, out_trn] + na + ["--num-workers", "0"] + (["--swap"] if case["swap_out"] else [])
             out = {"ret": r1, "dir": listing, "no_times": shapes_ok}
             try:
-                out["ret2"] = K.call("torch_token_data_dir_to_trn", argv2)
+                out["ret2"] = self._call(case, "torch_token_data_dir_to_trn", argv2)
                 out["back"] = K.parse_trn(out_trn)
             except FileNotFoundError:
                 out["back_error"] = "FileNotFoundError"
@@ -673,11 +763,11 @@ class C17(PropertyCheck):
                 K.save(K.long_tensor(segs, (len(segs), 3)), os.path.join(tok, name))
             na = K.name_args(case["prefix"], case["suffix"])
             sh = ["--frame-shift-ms", str(case["shift"])]
-            K.call("ctm_to_torch_token_data_dir", [ctm, t2i_path, tok] + na + sh + map_args + ["--num-workers", "0"])
+            self._call(case, "ctm_to_torch_token_data_dir", [ctm, t2i_path, tok] + na + sh + map_args + ["--num-workers", "0"])
             listing = {n: K.load(os.path.join(tok, n)).tolist() for n in sorted(os.listdir(tok))}
             out_ctm = os.path.join(d, "out.ctm")
             chan_args = ["--channel", "B"] if m == "channel" else map_args
-            K.call("torch_token_data_dir_to_ctm", [tok, i2t_path, out_ctm] + na + sh + chan_args)
+            self._call(case, "torch_token_data_dir_to_ctm", [tok, i2t_path, out_ctm] + na + sh + chan_args)
             rows = K.parse_ctm(out_ctm)
             back = {}
             inv = {v: k for k, v in wc.items()}
@@ -711,11 +801,11 @@ class C17(PropertyCheck):
             na = K.name_args(case["prefix"], case["suffix"])
             sh = ["--frame-shift-ms", str(case["shift"])]
             tgs = ["--textgrid-suffix=" + case["tg_suffix"]]
-            K.call("textgrids_to_torch_token_data_dir", [tg, t2i_path, tok] + na + sh + tgs + ["--num-workers", "0"])
+            self._call(case, "textgrids_to_torch_token_data_dir", [tg, t2i_path, tok] + na + sh + tgs + ["--num-workers", "0"])
             listing = {n: K.load(os.path.join(tok, n)).tolist() for n in sorted(os.listdir(tok))}
             err = None
             try:
-                K.call("torch_token_data_dir_to_textgrids",
+                self._call(case, "torch_token_data_dir_to_textgrids",
                        [tok, i2t_path, tg2, "--infer"] + na + sh + tgs + ["--num-workers", "0"])
             except Exception as e:
                 err = {"back_error": type(e).__name__, "back_message": str(e)[-160:],
@@ -801,7 +891,7 @@ class C17(PropertyCheck):
             stdout = io.StringIO()
             try:
                 with contextlib.redirect_stdout(stdout):
-                    ret = K.call("compute_torch_token_data_dir_error_rates", argv)
+                    ret = self._call(case, "compute_torch_token_data_dir_error_rates", argv)
             except Exception as e:
                 return {"error": type(e).__name__, "message": str(e)[:200], "seen": seen, "tensors": tensors}
             finally:
@@ -874,7 +964,7 @@ class C17(PropertyCheck):
             def run(dst):
                 a = list(argv)
                 a[1] = dst
-                ret = K.call("subset_torch_spect_data_dir", a)
+                ret = self._call(case, "subset_torch_spect_data_dir", a)
                 got, same = [], True
                 for root, _, files in os.walk(dst):
                     for n in files:
@@ -923,7 +1013,7 @@ class C17(PropertyCheck):
             # new utterance ids "<old id>#<index of the chunk>": the source utterance can be read back
             chunk_error = None
             try:
-                ret = K.call("chunk_torch_spect_data_dir", [src, dest, "--quiet", "--num-workers", "0",
+                ret = self._call(case, "chunk_torch_spect_data_dir", [src, dest, "--quiet", "--num-workers", "0",
                                                             "--format-utt", "{utt_id}#{idx}"] + na)
             except Exception as e:  # noqa: judged by the predicate; the info command is still run
                 ret, chunk_error = None, [type(e).__name__, str(e)[:200].replace(d, "<tmp>")]
@@ -935,7 +1025,7 @@ class C17(PropertyCheck):
                     top, _, rest = rel.partition(os.sep)
                     got.append(back[top] + "/" + rest if (rest and top in back) else "other:" + rel)
             info_path = os.path.join(d, "info.txt")
-            ret2 = K.call("get_torch_spect_data_dir_info", [src, info_path] + na)
+            ret2 = self._call(case, "get_torch_spect_data_dir_info", [src, info_path] + na)
             info = {}
             with open(info_path) as f:
                 for line in f:
@@ -963,7 +1053,7 @@ class C17(PropertyCheck):
                 "print_torch_ref_data_dir_length_moments"
             if case["which"] == "ref":
                 argv.append("--quiet")
-            ret = K.call(fn, argv)
+            ret = self._call(case, fn, argv)
             with open(out) as f:
                 return {"ret": ret, "text": f.read()}
 
@@ -987,7 +1077,7 @@ class C17(PropertyCheck):
                         f.write(f"{u} {g}\n")
                 argv += ["--id2gid", mp]
             try:
-                ret = K.call("compute_mvn_stats_for_torch_feat_data_dir", argv)
+                ret = self._call(case, "compute_mvn_stats_for_torch_feat_data_dir", argv)
             except RuntimeError:
                 return {"error1": "RuntimeError"}
             if ret:
@@ -1004,8 +1094,8 @@ class C17(PropertyCheck):
 
     def model_request(self, case):
         k = case["kind"]
-        if k == "workers":
-            return None        # no model: the oracle is the serial run of the same commands
+        if k in ("workers", "session"):
+            return None        # no model: the oracle is the serial run of the same commands (in a fresh process)
         p, s = case["prefix"], case["suffix"]
         if k == "alidir":
             return {"op": "c17.alidir", "case": {"prefix": p, "suffix": s, "files": case["files"]}}
@@ -1781,7 +1871,7 @@ class C17(PropertyCheck):
     # ================================================================== bookkeeping
     def nontrivial(self, case, impl):
         k = case["kind"]
-        if k == "workers":
+        if k in ("workers", "session"):
             return True
         n = len(case.get("files", case.get("corpus", case.get("refs", case.get("feat", [])))))
         nondefault = (case["prefix"], case["suffix"]) != ("", ".pt")
@@ -1796,6 +1886,8 @@ class C17(PropertyCheck):
         k = case["kind"]
         if k == "workers":
             return ["kind=workers", f"workers.{case.get('start')}.{case['n_utts']}utts"]
+        if k == "session":
+            return ["kind=session", "session." + case["relation"]]
         t = ["kind=" + k, "prefix=" + ("default" if case["prefix"] == "" else "set"),
              "suffix=" + ("default" if case["suffix"] == ".pt" else ("empty" if case["suffix"] == "" else "set"))]
         if k == "er":
@@ -1868,6 +1960,9 @@ class C17(PropertyCheck):
             n_all = sum(len(toks) for _, toks in case["corpus"])
             if n_all:
                 t.append(f"{k}.frames_compared_exactly=" + ("all" if n_ex == n_all else "some" if n_ex else "none"))
+        for what in sorted(self._omitted.get(json.dumps(case, sort_keys=True), ())):
+            t.append("omitted_default=" + what.split(":")[1])
+            t.append("omitted_default_in=" + what)
         if k == "refdir" and case.get("feat_extra"):
             t.append("refdir.feat_dir_has_other_files")
         if k == "refdir" and isinstance(impl, dict) and "error1" in impl:
@@ -1877,6 +1972,19 @@ class C17(PropertyCheck):
     def shrink(self, case):
         if case.get("kind") == "workers":
             return             # the corpora of the worker runs are minimal by construction
+        if case.get("kind") == "session":
+            # fewer earlier calls in the process: only the last one, then one at a time
+            h = case.get("history", [])
+            if len(h) > 1:
+                yield dict(case, history=h[-1:])
+                for i in range(min(len(h), 6)):
+                    yield dict(case, history=h[:i] + h[i + 1:])
+            return
+        for fn, flags in (case.get("omit") or {}).items():
+            # every flag passed explicitly again, one at a time
+            for f in flags:
+                om = {k: [x for x in v if not (k == fn and x == f)] for k, v in case["omit"].items()}
+                yield dict(case, omit={k: v for k, v in om.items() if v})
         for key in ("files", "corpus", "refs", "hyps", "feat", "extra", "replace", "ignore"):
             v = case.get(key)
             if isinstance(v, list) and v:
@@ -1979,11 +2087,137 @@ class C17(PropertyCheck):
                 fails.append((self._workers_what(case, setting, diffs), None))
         return fails
 
+    # ================================================================== sessions (option grid of every command)
+    # A "session" case is one command on one small corpus, judged against the same invocation run with
+    # --num-workers 0 as the first thing a fresh process does: {"kind": "session", "name", "fn", "pool",
+    # "inputs", "outputs", "argv", "relation", ...} with relation
+    #   "same_process":     "history" = the invocations made before it IN THE SAME PROCESS (--num-workers 0);
+    #   "workers":          the invocation with one worker, chunk size 1 (fresh process);
+    #   "explicit_default": "omitted" = the invocation with the flag left out (argv passes the documented default).
+    _session_runs = None
+
+    def _start_session_runs(self, rng, tier):
+        import c17_opts as O
+        return WorkerRuns(O.session_groups(rng, tier), n_procs=3 if tier == "quick" else 4,
+                          limit_s=400 if tier == "quick" else 900)
+
+    @staticmethod
+    def _session_jobs(case):
+        import c17_opts as O
+        su = {"fn": case["fn"], "pool": case["pool"]}
+        common = {"inputs": case["inputs"], "outputs": case["outputs"], "isolate": True, "start": "fork",
+                  "workers": 0, "chunk": None}
+        fresh = dict(common, steps=O.steps_of(su, case["argv"]))
+        if case["relation"] == "same_process":
+            return [fresh, dict(common, steps=fresh["steps"],
+                                chain=[O.steps_of(su, a) for a in case["history"] + [case["argv"]]])]
+        if case["relation"] == "workers":
+            return [fresh, dict(common, steps=[[case["fn"], case["argv"], case["pool"]]], workers=1, chunk=1,
+                                start=case.get("start", "fork"))]
+        return [dict(common, steps=O.steps_of(su, case["omitted"])), fresh]
+
+    def impl_session(self, case):
+        group = {"name": case["name"], "n_utts": 3, "start": "fork", "jobs": self._session_jobs(case)}
+        ref, got = WorkerRuns([group], n_procs=1, limit_s=300).collect()[0]
+        return {"runs": [ref, got["chain"][-1] if "chain" in got else got]}
+
+    @staticmethod
+    def _session_what(case, diffs):
+        cmd = f"{case['fn']} {' '.join(case['argv'])}"
+        tail = "; ".join(diffs[:3]) + (f" (+{len(diffs) - 3} more)" if len(diffs) > 3 else "")
+        if case["relation"] == "same_process":
+            prev = case["history"][-1] if case["history"] else []
+            return (f"{cmd} (--num-workers 0) as call number {len(case['history']) + 1} of one python process, right "
+                    f"after the same command with {' '.join(prev)}, leaves something else than the same invocation "
+                    f"in a fresh process: {tail}")
+        if case["relation"] == "workers":
+            return (f"{cmd}: the run with --num-workers 1 --mp-chunk-size 1 ({case.get('start', 'fork')} pool) differs "
+                    f"from the serial run (--num-workers 0): {tail}")
+        return (f"{cmd}: passing the documented default explicitly gives something else than omitting the flag "
+                f"({' '.join(case['omitted'])}): {tail}")
+
+    @staticmethod
+    def _session_ref(case):
+        return {"same_process": "the first call of a fresh process", "workers": "serial run",
+                "explicit_default": "with the flag omitted"}[case["relation"]]
+
+    def pred_session(self, case, impl, model):
+        if self._err(impl):
+            return []          # the runs did not finish: no verdict
+        su = {"fn": case["fn"], "pool": case["pool"]}
+        import c17_opts as O
+        diffs = K.diff_runs(O.steps_of(su, case["argv"]), impl["runs"][0], impl["runs"][1], self._session_ref(case))
+        return [(self._session_what(case, diffs), None)] if diffs else []
+
+    def _collect_sessions(self, tier, report):
+        import time
+        import c17_opts as O
+        t0 = time.time()
+        runs, self._session_runs = self._session_runs, None
+        if runs is None:
+            return
+        per_group = runs.collect()
+        n = {"same_process": 0, "workers": 0, "explicit_default": 0}
+        n_fail, reduced = 0, False
+        for g, res in zip(runs.groups, per_group):
+            su, inv, ix = g["suite"], g["inv"], g["index"]
+            base = {"kind": "session", "name": su["name"], "fn": su["fn"], "pool": su["pool"],
+                    "inputs": su["inputs"], "outputs": su["outputs"]}
+            found = []
+            chain = res[0]["chain"]
+            for pos, i in enumerate(ix["chain"]):
+                n["same_process"] += 1
+                case = dict(base, relation="same_process", argv=inv[i][1],
+                            history=[inv[j][1] for j in ix["chain"][:pos]])
+                d = K.diff_runs(O.steps_of(su, inv[i][1]), res[ix["fresh"][i]], chain[pos], self._session_ref(case))
+                if d:
+                    found.append((case, d, {"fresh": res[ix["fresh"][i]], "in_session": chain[pos]}))
+            for i, j in ix["pool"].items():
+                n["workers"] += 1
+                case = dict(base, relation="workers", argv=inv[i][1], start=g["jobs"][j]["start"])
+                d = K.diff_runs(O.steps_of(su, inv[i][1]), res[ix["fresh"][i]], res[j], self._session_ref(case))
+                if d:
+                    found.append((case, d, {"serial": res[ix["fresh"][i]], "with_workers": res[j]}))
+            for i, (_, argv, is_default) in enumerate(inv):
+                if not is_default:
+                    continue
+                n["explicit_default"] += 1
+                case = dict(base, relation="explicit_default", argv=argv, omitted=inv[0][1])
+                d = K.diff_runs(O.steps_of(su, argv), res[ix["fresh"][0]], res[ix["fresh"][i]], self._session_ref(case))
+                if d:
+                    found.append((case, d, {"omitted": res[ix["fresh"][0]], "explicit": res[ix["fresh"][i]]}))
+            n_fail += len(found)
+            for case, d, detail in found[:4]:
+                if case["relation"] == "same_process" and len(case["history"]) > 1 and not reduced:
+                    # does the call just before it suffice? (one more subprocess, once per run)
+                    reduced = True
+                    small = dict(case, history=case["history"][-1:])
+                    try:
+                        r = self.impl_session(small)
+                        d2 = K.diff_runs(O.steps_of(su, case["argv"]), r["runs"][0], r["runs"][1],
+                                         self._session_ref(case))
+                        if d2:
+                            case, d, detail = small, d2, {"fresh": r["runs"][0], "in_session": r["runs"][1]}
+                    except Exception:  # noqa: keep the full history
+                        pass
+                report["failures"].append(Failure(case, self._session_what(case, d), None, detail))
+        report["extra"]["sessions"] = {
+            "commands": sorted({g["suite"]["fn"] for g in runs.groups}), "suites": len(runs.groups),
+            "invocations": sum(len(g["inv"]) for g in runs.groups),
+            "flips_explicit_default": n["explicit_default"], "compared": n, "differences": n_fail,
+            "what": "per command: base (every optional flag omitted) and one option changed at a time (explicit "
+                    "documented default / other value); (1) base, flip1, base, flip2, ... in ONE process with "
+                    "--num-workers 0, each = the same invocation in a fresh process; (2) one worker = serial for "
+                    "every invocation; (3) explicit documented default = flag omitted",
+            "subprocesses": len(runs.procs), "waited_s": round(time.time() - t0, 1)}
+
     def extra_checks(self, rng, tier, report):
         if tier not in ("quick", "thorough"):
             return
         import time
         t0 = time.time()
+        if self._session_runs is None:
+            self._session_runs = self._start_session_runs(rng, tier)
         runs = self._worker_runs or self._start_worker_runs(rng, tier)
         self._worker_runs = None
         per_group = runs.collect()
@@ -2006,6 +2240,7 @@ class C17(PropertyCheck):
                         + ("; workers {0,1,3} x chunk {1,2} on 7 utterances" if tier == "thorough" else ""),
             "subprocesses": len(runs.procs), "waited_s": round(time.time() - t0, 1),
             "started_s_before_collect": round(t0 - runs.t_start, 1)}
+        self._collect_sessions(tier, report)
 
 
 class WorkerRuns:
